@@ -192,7 +192,8 @@ def parse_msm(msg: object) -> tuple:
     :rtype: tuple
     """
 
-    if not msg.ismsm:
+    if not msg.ismsm or not hasattr(msg, "NSat"):
+        # not MSM, or a reserved MSM message number without a payload definition
         return None
 
     meta = {}
